@@ -41,11 +41,11 @@ ASSUMPTIONS = [
     "the reference cleaner is written from the statement (paths -> ${name} except the excluded families; consecutive duplicates and Java stack lines dropped)",
 ]
 BOUND = {
-    "quick": "library + xls2xform_convert: all stderr scripts of <=2 lines over a 7-line alphabet x exit {0,1,2,255} + killed/absent/corrupt; CLI: 7 representative scripts x 10 entry variants x 3 forms x 2 pre-existing states; single I/O faults on both library paths",
+    "quick": "library + xls2xform_convert: all stderr scripts of <=2 lines over a 8-line alphabet x exit {0,1,2,255} + killed/absent/corrupt; CLI: 7 representative scripts x 10 entry variants x 3 forms x 2 pre-existing states; single I/O faults on both library paths",
     "thorough": "same with scripts of <=3 lines for the library paths and 16 scripts for the CLI",
 }
 # as-built additions to the bound (kept next to BOUND so that the evidence reports them)
-BOUND = {k: v + "; plus: " + 'validator output that is not valid UTF-8 (3 byte scripts x exit {0,1})' for k, v in BOUND.items()}
+BOUND = {k: v + "; plus: " + 'a stderr line starting with WARNING: in the line alphabet; 200 KiB of validator output on stdout or stderr x exit {0,1}; validator output that is not valid UTF-8 (3 byte scripts x exit {0,1})' for k, v in BOUND.items()}
 
 LINES = [
     "Something broke the parser.",
@@ -55,6 +55,7 @@ LINES = [
     "java.lang.RuntimeException: boom /data/a_b/c-d",
     "Error: Unable to access jarfile /x/ODK_Validate.jar",
     "instance('c')/root/item/name and /data/s/item/value and /html/head/model/bind[@nodeset=/data/q]",
+    "WARNING: deprecated attribute at /data/q",
 ]
 FORM_VALID = "| survey |\n| | type | name | label |\n| | text | q | Q |\n"
 FORM_EXT = ("| survey |\n| | type | name | label | choice_filter |\n| | text | q | Q | |\n| | select_one_external e | s | S | state=${q} |\n"
@@ -110,7 +111,12 @@ class Env:
             with open(os.path.join(self.d, "stderr.txt"), "wb") as f:
                 f.write(bytes.fromhex(v["stderr_hex"]) if v.get("stderr_hex") else v.get("stderr", "").encode("utf-8"))
             tail = f"exit {v['rc']}" if kind == "exit" else f"kill -{v['sig']} $$"
-            sh = f"#!/bin/sh\necho \"$*\" >> {self.log}\n/bin/cat {self.d}/stderr.txt >&2\n{tail}\n"
+            chat = ""
+            if v.get("stdout_kb"):
+                with open(os.path.join(self.d, "stdout.txt"), "wb") as f:
+                    f.write(b"chatty validator output line\n" * (v["stdout_kb"] * 1024 // 29))
+                chat = f"/bin/cat {self.d}/stdout.txt\n"
+            sh = f"#!/bin/sh\necho \"$*\" >> {self.log}\n{chat}/bin/cat {self.d}/stderr.txt >&2\n{tail}\n"
             p = os.path.join(self.bin, "java")
             with open(p, "w") as f:
                 f.write(sh)
@@ -177,6 +183,11 @@ def validators(tier, rich):
     for raw in (b"Ung\x81ltig /data/q\n", b"\xff\xfe bad\n", b"caf\xe9\n"):
         for rc in (0, 1):
             vs.append({"kind": "exit", "rc": rc, "stderr": raw.decode("latin-1"), "stderr_hex": raw.hex(), "loose": True})
+    # output larger than a pipe buffer, on either stream (the validator is chatty on stdout): the verdict and the text still arrive
+    big = "".join(f"problem {i:05d} in the form\n" for i in range(8000))
+    for rc in (0, 1):
+        vs.append({"kind": "exit", "rc": rc, "stderr": LINES[0] + "\n", "stdout_kb": 200})
+        vs.append({"kind": "exit", "rc": rc, "stderr": big})
     vs += [{"kind": "kill", "sig": 9, "stderr": LINES[0] + "\n"}, {"kind": "kill", "sig": 15, "stderr": ""}, {"kind": "absent"}, {"kind": "corrupt"}]
     return vs
 
